@@ -81,7 +81,7 @@ func sliceAssumptions(ass []Assump, seeds ...*Term) []*Term {
 	}
 	var out []*Term
 	for i, a := range ass {
-		if infos[i].in {
+		if infos[i].in || len(infos[i].syms) == 0 {
 			out = append(out, a.T)
 		}
 	}
@@ -160,7 +160,7 @@ func sliceRadius(ass []Assump, radius int, seeds ...*Term) []*Term {
 	}
 	var out []*Term
 	for i, a := range ass {
-		if infos[i].in {
+		if infos[i].in || len(infos[i].syms) == 0 {
 			out = append(out, a.T)
 		}
 	}
